@@ -155,6 +155,15 @@ func aimedAMs(caps amCaps) []*amSchema {
 		}
 		out = append(out, mk(objs...))
 	}
+	// 13. constrained scalars that also have a default (CUE: `T & constraints | *d`)
+	if caps.Defaults {
+		out = append(out, mk(&amObject{"Guarded", st(
+			fld("code", true, withDefault(strLen(1, 6), "dflt")),
+			fld("level", true, withDefault(bounded(tyw("int", intW), 0, 36), num(12))),
+			fld("floor", false, withDefault(bounded(tyw("int", intW), 2, 36), num(12))),
+			fld("share", false, withDefault(bounded(tyw("float", fltW), 0.5, 90.25), num("1.5"))),
+		)}))
+	}
 	// 6. enums whose members need care when turned into identifiers
 	if caps.Enums {
 		out = append(out, mk(
